@@ -81,6 +81,7 @@ var vg struct {
 	finPos   int // length of vg.wire before the peer's Finished
 	keBlocks int
 	hellosRead int
+	shSID    []byte // session id of the ServerHello delivered
 }
 
 // datagram-stack ghost state (unused on the stream stack)
@@ -264,6 +265,7 @@ func (c *Conn) readHandshake(transcript transcriptHash) (interface{}, error) {
 		if verifSplitInt("sh.alpn", 0, 1) == 1 {
 			sh.alpnProtocol = string(verifNondetBytes("sh.alpn", 1))
 		}
+		vg.shSID = sh.sessionId
 		m = sh
 	case kCert:
 		n := verifSplitInt("ncerts", 0, 3)
@@ -465,7 +467,7 @@ func matchKinds(w []int) bool {
 
 // C02 / C03 / C08 / C10 / C12 — the real client handshake against a symbolic peer.
 //
-//verif:harness props=C02,C03,C08,C10,C12,C09 twinprops=C02,C03,C08,C10,C19 paths=400000 tpaths=4000000 depth=300 reach=completedFull,completedResumed,failed
+//verif:harness props=C02,C03,C08,C10,C12,C09,C01 twinprops=C02,C03,C08,C10,C19,C01 paths=400000 tpaths=4000000 depth=300 reach=completedFull,completedResumed,failed
 func VerifHarness_client_handshake() {
 	stubSuites()
 	cache := &verifCache{}
@@ -477,7 +479,13 @@ func VerifHarness_client_handshake() {
 	var offered *SessionState
 	if verifSplitInt("haveSession", 0, 1) == 1 {
 		cache.have = true
-		offered = &SessionState{sessionId: verifNondetBytes("sess.id", 32), vers: verifNondetU16("sess.vers"), cipherSuite: verifNondetU16("sess.suite"),
+		// (the cached session's id is 32 bytes, or empty: what a client holds after a server answered with an
+		// empty session id, "not resumable")
+		sid := make([]byte, 0)
+		if verifSplitInt("sess.idLen32", 0, 1) == 1 {
+			sid = verifNondetBytes("sess.id", 32)
+		}
+		offered = &SessionState{sessionId: sid, vers: verifNondetU16("sess.vers"), cipherSuite: verifNondetU16("sess.suite"),
 			masterSecret: verifNondetBytes("sess.master", 48*verifSplitInt("sess.hasMaster", 0, 1)),
 			peerCertificates: []*x509.Certificate{{Raw: []byte{1}}, {Raw: []byte{2}}}}
 		cache.sess = offered
@@ -519,6 +527,12 @@ func VerifHarness_client_handshake() {
 		verifReach("completedResumed")
 		verifAssert("C08.client.legalOrderResumed", matchKinds([]int{kSH, kCCS, kFin}))
 		verifAssert("C10.client.resumedOnlyIfOffered", offered != nil)
+		// a handshake counts as resumed only when the server echoed a NON-EMPTY session id equal to the offered one
+		// (an empty id means "full handshake, not resumable": treating empty == empty as an echo makes the client wait
+		// for ChangeCipherSpec while the server sends its certificates — the two honest endpoints never finish)
+		echoed := offered != nil && len(vg.shSID) > 0 && bytes.Equal(vg.shSID, offered.sessionId)
+		verifAssert("C10.client.resumedOnlyOnEchoedNonEmptyId", echoed)
+		verifAssert("C01.client.resumedOnlyOnEchoedNonEmptyId", echoed)
 		if offered != nil {
 			verifAssert("C10.client.resumedSameVersionAndSuite", offered.vers == c.vers && offered.cipherSuite == c.cipherSuite)
 			verifAssert("C10.client.resumedUsesCachedMaster", len(offered.masterSecret) == 48 && bytes.Equal(vg.srvKey, offered.masterSecret) && bytes.Equal(vg.cliKey, offered.masterSecret))
